@@ -13,6 +13,9 @@ CONSTANTS
   CraftToks = {}
   MaxPresent = 2
   Calls = {"exchange", "payload", "readdress", "deliver"}
+  HealRounds = 0
+  HealDt = 250
+  Bound = 0
   PropsOn <- P_HS
   Export = TRUE
   ExportAll = FALSE
